@@ -113,23 +113,112 @@ FORMS = {
     "func": ("RhsFunc", False, False), "other": ("RhsOther", False, False),
     "local": ("RhsIfaceLit", False, True), "local_lit": ("RhsIfaceLit", False, True), "local_method": ("RhsIfaceLit", False, True),
     "local_struct": ("RhsStruct", False, False),
+    # the mock struct of a file written by an earlier mockery run (matryer style: stdlib only; testify style
+    # only in _test.go files, which are not loaded)
+    "mock_matryer": ("RhsStruct", False, False), "mock_testify": ("RhsStruct", False, False),
 }
 LOCAL = {"local", "local_lit", "local_method", "local_struct"}
 NAMES = ["A", "B", "Reader", "Writer", "Store", "store", "Client", "client", "Svc", "svcImpl", "Foo", "FooBar", "BarFoo",
          "foo", "Get", "X1", "Handler", "Repo", "repoX", "Q", "R", "Zed", "Iface", "T0"]
-FILES = {"a.go": None, "b.go": None, "tagged.go": TAG, "never.go": "verifnever", "c_test.go": None}
+FILES = {"a.go": None, "b.go": None, "tagged.go": TAG, "never.go": "verifnever", "c_test.go": None,
+         # pre-existing generated files: before / between / after the source files a.go, b.go in go list's order
+         "0mocks.go": None, "a_mocks.go": None, "mocks.go": None, "zz_mocks.go": None, "mocks_test.go": None,
+         "0svc_grpc.pb.go": None, "svc.pb.go": None, "a_svc_grpc.pb.go": None}
+HDR_MATRYER = "// Code generated by mockery; DO NOT EDIT.\n// github.com/vektra/mockery\n// template: matryer\n\n"
+HDR_TESTIFY = "// Code generated by mockery; DO NOT EDIT.\n// github.com/vektra/mockery\n// template: testify\n\n"
+HEADERS = {"0mocks.go": HDR_MATRYER, "a_mocks.go": HDR_MATRYER, "mocks.go": HDR_MATRYER, "zz_mocks.go": HDR_MATRYER,
+           "mocks_test.go": HDR_TESTIFY,
+           "0svc_grpc.pb.go": "// Code generated by protoc-gen-go-grpc. DO NOT EDIT.\n// versions:\n// - protoc-gen-go-grpc v1.5.1\n// source: svc.proto\n\n",
+           "svc.pb.go": "// Code generated by protoc-gen-go. DO NOT EDIT.\n// source: svc.proto\n\n"}
+HEADERS["a_svc_grpc.pb.go"] = HEADERS["0svc_grpc.pb.go"]
+MOCK_FILES = ["0mocks.go", "a_mocks.go", "mocks.go", "zz_mocks.go"]
+UNCOND = ("a.go", "b.go")
 
 
 def decl_active(d, tags):
+    """Is the file one of pkg.GoFiles?  (HEAD does not look at `Code generated` headers: config.IsAutoGenerated
+    exists but is not called anywhere, so generated files are ordinary files of the package.)"""
     f = d["file"]
-    if f in ("a.go", "b.go"): return True
+    if f.endswith("_test.go") or f == "never.go": return False
     if f == "tagged.go": return TAG in tags
-    return False
+    return True
 
 
-def decl_src(d, i):
+MATRYER_BODY = """// Ensure that %(m)s does implement %(t)s.
+// If this is not the case, regenerate this file with mockery.
+var _ %(t)s = &%(m)s{}
+
+// %(m)s is a mock implementation of %(t)s.
+//
+//	func TestSomethingThatUses%(t)s(t *testing.T) {
+//
+//		// make and configure a mocked %(t)s
+//		mocked%(t)s := &%(m)s{
+//			%(f)sFunc: func(x int) error {
+//				panic("mock out the %(f)s method")
+//			},
+//		}
+//
+//	}
+type %(m)s struct {
+	// %(f)sFunc mocks the %(f)s method.
+	%(f)sFunc func(x int) error
+
+	// calls tracks calls to the methods.
+	calls struct {
+		// %(f)s holds details about calls to the %(f)s method.
+		%(f)s []struct {
+			// X is the x argument value.
+			X int
+		}
+	}
+	lock%(f)s sync.RWMutex
+}
+
+// %(f)s calls %(f)sFunc.
+func (mock *%(m)s) %(f)s(x int) error {
+	if mock.%(f)sFunc == nil {
+		panic("%(m)s.%(f)sFunc: method is nil but %(t)s.%(f)s was just called")
+	}
+	callInfo := struct {
+		X int
+	}{
+		X: x,
+	}
+	mock.lock%(f)s.Lock()
+	mock.calls.%(f)s = append(mock.calls.%(f)s, callInfo)
+	mock.lock%(f)s.Unlock()
+	return mock.%(f)sFunc(x)
+}"""
+TESTIFY_BODY = """// New%(m)s creates a new instance of %(m)s.
+func New%(m)s(t interface {
+	mock.TestingT
+	Cleanup(func())
+}) *%(m)s {
+	m := &%(m)s{}
+	m.Mock.Test(t)
+	t.Cleanup(func() { m.AssertExpectations(t) })
+	return m
+}
+
+// %(m)s is an autogenerated mock type for the %(t)s type
+type %(m)s struct {
+	mock.Mock
+}
+
+// %(f)s provides a mock function for the type %(m)s
+func (_mock *%(m)s) %(f)s(x int) error {
+	ret := _mock.Called(x)
+	return ret.Error(0)
+}"""
+
+
+def decl_src(d, i, decls=None):
     n, f = d["name"], d["form"]
     t = d.get("target", "")
+    if f in ("mock_matryer", "mock_testify"):
+        ti = [j for j, x in enumerate(decls) if x["name"] == t and x["form"] == "iface" and x["file"] in UNCOND][0]
+        return (MATRYER_BODY if f == "mock_matryer" else TESTIFY_BODY) % {"m": n, "t": t, "f": "M%d" % ti}
     if f == "iface": return "type %s interface{ M%d(x int) error }" % (n, i)
     if f == "generic_iface": return "type %s[T any] interface{ Get() T }" % n
     if f == "constraint": return "type %s interface{ ~int | ~string }" % n
@@ -162,9 +251,11 @@ def pkg_files(node):
     for i, d in enumerate(node["decls"]):
         by_file.setdefault(d["file"], []).append((i, d))
     for f, ds in by_file.items():
-        body = "\n\n".join(decl_src(d, i) for i, d in ds)
-        head = ("//go:build %s\n\n" % FILES[f]) if FILES[f] else ""
-        imp = 'import "io"\n\n' if "io." in body else ""
+        body = "\n\n".join(decl_src(d, i, node["decls"]) for i, d in ds)
+        head = HEADERS.get(f, "") + (("//go:build %s\n\n" % FILES[f]) if FILES[f] else "")
+        imps = [x for x, used in (('"io"', "io." in body), ('"sync"', "sync." in body),
+                                  ('mock "github.com/stretchr/testify/mock"', "mock.Mock" in body)) if used]
+        imp = ("import (\n%s)\n\n" % "".join("\t%s\n" % x for x in imps)) if imps else ""
         out[f] = "%spackage %s\n\n%s%s\n" % (head, pkgname, imp, body)
     for f, txt in node.get("extra", {}).items():
         out[f] = txt
@@ -182,6 +273,25 @@ def abstract_decls(node, tags):
             out.append({"name": "recv%d" % i, "rhs": "RhsStruct", "alias": False, "iface": False, "local": False,
                         "active": decl_active(d, tags)})
     return out
+
+
+def add_generated(rng, decls, p=0.45):
+    """Files left behind by earlier generator runs, in-package."""
+    names = {d["name"] for d in decls}
+    targets = [d["name"] for d in decls if d["form"] == "iface" and d["file"] in UNCOND and d["name"] != "_"]
+    targets = [t for t in dict.fromkeys(targets) if "Moq" + t not in names and "Mock" + t not in names]
+    if targets and rng.random() < p:
+        f = rng.choice(MOCK_FILES[:2] * 2 + MOCK_FILES)          # mostly sorting before b.go
+        for t in rng.sample(targets, min(len(targets), rng.randint(1, 2))):
+            decls.append({"name": "Moq" + t, "form": "mock_matryer", "target": t, "file": f})
+    if targets and rng.random() < p * 0.5:
+        decls.append({"name": "Mock" + targets[0], "form": "mock_testify", "target": targets[0], "file": "mocks_test.go"})
+    if rng.random() < p * 0.5:
+        f = rng.choice(["0svc_grpc.pb.go", "svc.pb.go"])
+        for n, form in (("GrpcClient", "iface"), ("GrpcServer", "iface"), ("UnimplementedGrpcServer", "struct"), ("grpcStream", "iface")):
+            if n not in names and rng.random() < 0.8:
+                decls.append({"name": n, "form": form, "file": f})
+    return decls
 
 
 def gen_decls(rng, rich):
@@ -226,7 +336,7 @@ def gen_decls(rng, rich):
             if f in ("iface", "constraint", "embed", "struct", "func", "local") and rng.random() < 0.25:
                 d["file"] = rng.choice(["tagged.go", "never.go", "c_test.go"])
                 if d["file"] != "a.go" and f == "embed": d["file"] = "a.go"
-        if d["file"] in ("a.go", "b.go"):
+        if d["file"] in UNCOND:
             if f in ("iface", "embed", "from_ident", "from_std", "from_any"): uncond_ifaces.append(d["name"])
             if f == "generic_iface": generics.append(d["name"])
             if f == "generic_struct": gstructs.append(d["name"])
@@ -234,7 +344,7 @@ def gen_decls(rng, rich):
         decls.append(d)
     if not any(x["file"] in ("a.go", "b.go") for x in decls):
         decls.append({"name": fresh(), "form": rng.choice(["iface", "struct"]), "file": "a.go"})
-    return decls
+    return add_generated(rng, decls)
 
 
 PREFIX_FAMILY = ["px", "px/b", "px/b/c", "px/bc", "px/bc/d", "px/bcd", "px/k", "px/k/f", "px/k/fo", "px/k/fo/s", "px/k/b", "px/k/b/c"]
@@ -322,6 +432,7 @@ def gen_tree(rng):
         nodes.append({"rel": rel, "class": "go", "decls": [
             {"name": "Keep" + tag, "form": "iface", "file": "a.go"}, {"name": "Drop" + tag, "form": "iface", "file": "a.go"}]
             + ([{"name": "Opt" + tag, "form": "struct", "file": "b.go"}] if rng.random() < 0.3 else [])})
+        add_generated(rng, nodes[-1]["decls"], p=0.3)
     # cross-package state: several packages with the SAME package name (different import paths; one in a
     # directory with another name) that declare interfaces, structs and files with the SAME names, plus
     # the same interface names in a package with a different name
@@ -333,7 +444,7 @@ def gen_tree(rng):
             cand = [j for j, d in enumerate(ds) if d["form"] == "iface" and j > 0]
             if cand: del ds[rng.choice(cand)]
         if rng.random() < 0.5: ds.append({"name": "Only" + rel.split("/")[1].upper(), "form": "iface", "file": "b.go"})
-        n = {"rel": rel, "class": "go", "decls": ds}
+        n = {"rel": rel, "class": "go", "decls": add_generated(rng, ds, p=0.3)}
         if pkgname: n["pkgname"] = pkgname
         nodes.append(n)
     if rng.random() < 0.6:
@@ -468,7 +579,10 @@ def table_cases(rng):
         {"name": "Inst", "form": "inst", "target": "Gen", "file": "a.go"}, {"name": "S", "form": "struct", "file": "a.go"},
         {"name": "Fn", "form": "func", "file": "a.go"}, {"name": "AL", "form": "alias", "target": "Foo", "file": "a.go"},
         {"name": "Def", "form": "from_ident", "target": "Foo", "file": "a.go"},
-        {"name": "Foo", "form": "local", "file": "b.go"}, {"name": "Loc", "form": "local", "file": "b.go"}]}
+        {"name": "Foo", "form": "local", "file": "b.go"}, {"name": "Loc", "form": "local", "file": "b.go"},
+        {"name": "MoqFoo", "form": "mock_matryer", "target": "Foo", "file": "0mocks.go"},
+        {"name": "MockFooBar", "form": "mock_testify", "target": "FooBar", "file": "mocks_test.go"},
+        {"name": "FooGrpc", "form": "iface", "file": "a_svc_grpc.pb.go"}]}
     lit = lambda s, bos=False, eos=False: {"t": "ok", "p": {"bos": bos, "body": ("lit", s), "eos": eos}}
     incs = {"unset": None, "empty": {"t": "unset"}, "match_some": lit("Foo", True), "match_none": lit("Zzz"), "bad": {"t": "bad", "s": "("},
             "match_all": {"t": "ok", "p": {"bos": False, "body": ("star", ("any",)), "eos": False}}}
